@@ -13,7 +13,7 @@ META = {
     "outside": profiles.OUTSIDE,
 }
 
-REQUIRED_COVERS = {"any": profiles.REQUIRED["C14"] + ["second-run", "backward-logs", "continued-run"]}
+REQUIRED_COVERS = {"any": profiles.REQUIRED["C14"] + ["second-run", "backward-logs", "continued-run", "edited-logs"]}
 
 CROSSCHECK = {"thorough": 8}
 
@@ -35,6 +35,22 @@ def sim_history(p, ctx):
     if M.exc is None:
         oracles.c14(M, ctx)
         ctx.cover("continued-run")
+
+
+def edited(p, ctx):
+    """The per-step relation in the logs after absence steps were inserted into the finished run (logs only; no live states)."""
+    from props.simcore import run_sim
+    from model.observe import Observer
+
+    M = run_sim(p, ctx)
+    if M.exc is not None:
+        return
+    ok, r = ctx.call(M.project.insert_absence_time_list, [p["i0"], p["i0"] + 1])
+    if not ok:
+        return
+    M.obs = Observer(M)
+    oracles.c14(M, ctx)
+    ctx.cover("edited-logs")
 
 
 def repeat(p, ctx):
@@ -147,6 +163,17 @@ def obligations(tier, seed):
     f3 = [ob for ob in profiles.p_product("F3", thorough, timeout=900 if thorough else 150) if "wps=2" in ob["name"] and ("wprule=0" in ob["name"] or thorough)]
     nr = {"cap0": (1, 2), "cap1": (1, 2), "fs0": (1, 1), "fs1": (1, 1), "z0": (1, 1), "z1": (1, 1)}
     obs += [dict(ob, engine="zsym") for ob in profiles.with_history(f3, "resume", 5, nr) + profiles.with_history([ob for ob in f3 if "/fs" in ob["name"]], "json-resume", 5, nr)]
+    # absence steps inserted afterwards; members in which a component's last work is done at a project-wide absence step
+    # (flag set, automatic task), and a component whose tasks are all complete from the start
+    ed = [ob for ob in profiles.p_product("F2", thorough, timeout=900 if thorough else 150, absence=True, flag=True, auto_second=True) if "wps=2" in ob["name"] and ("wprule=0" in ob["name"] or thorough)]
+    spec = {"tasks": [{"w": "$w0", "auto": True, "rate": 1}, {"w": "$w1", "comp": 0}, {"w": 3, "comp": 1}, {"w": 1, "g": 2, "comp": 2}], "edges": [[0, 1, 2]],
+            "comps": [{"size": 1}, {"size": 1}, {"size": 1}], "teams": profiles.layout_workers("private", 4), "run": {"max_time": 10, "abs": ["$pa0", "$pa1"], "flag": True}}
+    ed.append({"name": "ff-behind-auto-task", "harness": "sim", "cube": {"spec": spec}, "params": [["w0", 1, 3], ["w1", 1, 2], ["pa0", 0, 3], ["pa1", 1, 4]], "pre": "pa0 < pa1",
+               "timeout": 900 if thorough else 150})
+    for ob in ed:
+        narrow = {"cap0": (1, 2), "cap1": (1, 2), "fs0": (1, 1), "fs1": (1, 1), "z0": (1, 1), "z1": (1, 1)}
+        pr = [[n, max(lo, narrow[n][0]), min(hi, narrow[n][1])] if n in narrow else [n, lo, hi] for n, lo, hi in ob["params"]]
+        obs.append(dict(ob, name="edited/" + ob["name"], harness="edited", engine="zsym", params=pr + [["i0", 0, 5]]))
     # a worker with a quality skill (the component's error counter rises) and a component with two parents, backward
     for rev in (0, 1):
         spec = {"tasks": [{"w": "$w0", "comp": 0}, {"w": "$w1", "comp": 1}, {"w": "$w2", "comp": 2}], "edges": [[2, 0, 0], [2, 1, 0]],
